@@ -2,12 +2,20 @@ package mon
 
 import (
 	"bytes"
+	"context"
 	"encoding/binary"
 	"encoding/json"
 	"fmt"
+	"os"
+	"path/filepath"
+	"sort"
+
+	bs "github.com/danthegoodman1/bloomsearch"
 
 	"verifharness/core"
 	"verifharness/extfmt"
+	"verifharness/gen"
+	"verifharness/world"
 )
 
 // c19Parts is the base file taken apart with the independent parser, so that it
@@ -275,4 +283,150 @@ func deepMutation(r *core.Rand, b *c19Base) (mut []byte, what string, rowsIntact
 		p.disk[bi] = d
 		return p.assemble(map[int]bool{bi: true}), fmt.Sprintf("deep:block%d.rowdata-not-%s", bi, codec), true, true
 	}
+}
+
+// c19Hashless: the MetaStore holds the file's metadata *without* row-data hashes (legal: the
+// hash is optional in the format and files written through WriteFileFooter need not carry it),
+// the bytes live in a FileSystemDataStore (handles are *os.File, which also implement
+// io.ReaderAt), and the file is cut at every structural boundary. Nothing but the length of the
+// file can tell the reader that a block's extent is not there any more: a helper asked for an
+// extent that runs past the end must fail, and a query must either answer exactly or report an
+// error - never hand out whatever the (pooled) buffer held before.
+func c19Hashless(rc *RunCtx, i int, r *core.Rand, base *c19Base, spec gen.EngineSpec, queries []*bs.Query, rowWritten func(map[string]any) bool, caseID string) bool {
+	mdH, _, err := bs.ReadFileMetadata(bytes.NewReader(base.raw))
+	if err != nil {
+		return true
+	}
+	for bi := range mdH.DataBlocks {
+		mdH.DataBlocks[bi].HasRowDataHash, mdH.DataBlocks[bi].RowDataHash = false, 0
+	}
+	dir := scratchDir("c19", fmt.Sprintf("%s-hl-%d", caseID, os.Getpid()))
+	defer os.RemoveAll(dir)
+	path := filepath.Join(dir, "hashless.dat")
+	fsd := bs.NewFileSystemDataStore(dir)
+	ms := bs.NewMemoryMetaStore()
+	if err := ms.Update(context.Background(), []bs.WriteOperation{{FileMetadata: mdH, FilePointerBytes: []byte(path)}}, nil); err != nil {
+		return true
+	}
+	eng, err := bs.NewBloomSearchEngine(spec.Config(), ms, fsd)
+	if err != nil {
+		return true
+	}
+	run := func(q *bs.Query) *world.QueryResult {
+		ctx, cancel := context.WithTimeout(context.Background(), core.Patience)
+		defer cancel()
+		return world.RunQuery(ctx, eng, q)
+	}
+	os.WriteFile(path, base.raw, 0o600)
+	baseline := make([]map[string]int, len(queries))
+	for k, q := range queries {
+		res := run(q)
+		if res.QErr != nil || res.Err != nil {
+			rc.Violate(i, "scenario-failed", "", fmt.Sprintf("hashless baseline query: %v %v", res.QErr, res.Err), nil)
+			return false
+		}
+		baseline[k] = res.VIDs
+	}
+	cutSet := map[int]bool{}
+	for _, blk := range mdH.DataBlocks {
+		for _, c := range []int{blk.RowDataOffset, blk.RowDataOffset + 1, blk.RowDataOffset + blk.RowDataSize/2, blk.RowDataOffset + blk.RowDataSize - 1, blk.RowDataOffset + blk.RowDataSize, blk.BloomFilterOffset + blk.BloomFilterSize/2} {
+			cutSet[c] = true
+		}
+	}
+	for k := 0; k < 4; k++ {
+		cutSet[r.Intn(len(base.raw))] = true
+	}
+	var cuts []int
+	for c := range cutSet {
+		if c >= 0 && c < len(base.raw) {
+			cuts = append(cuts, c)
+		}
+	}
+	sort.Ints(cuts)
+	if len(cuts) > 40 {
+		perm := r.Perm(len(cuts))
+		var keep []int
+		for _, k := range perm[:40] {
+			keep = append(keep, cuts[k])
+		}
+		cuts = keep
+	}
+	for _, cut := range cuts {
+		mut := base.raw[:cut]
+		os.WriteFile(path, mut, 0o600)
+		rc.Res.Count("hashless_truncations", 1)
+		wit := func(extra any) map[string]any {
+			saved := filepath.Join(core.VerifDir, "replay", "C19", fmt.Sprintf("input-%s-hashless-%d.bin", caseID, cut))
+			os.MkdirAll(filepath.Dir(saved), 0o755)
+			os.WriteFile(saved, mut, 0o644)
+			return map[string]any{"case": caseID, "mutation": fmt.Sprintf("hashless-truncate: metadata without row-data hashes held by the MetaStore, file cut at %d of %d", cut, len(base.raw)), "input_file": saved, "compression": spec.Compression, "detail": extra}
+		}
+		for bi := range mdH.DataBlocks {
+			blk := mdH.DataBlocks[bi]
+			end := blk.RowDataOffset + blk.RowDataSize
+			for _, kind := range []string{"os.File", "bytes.Reader"} {
+				var rd []byte
+				var rerr error
+				var pan any
+				func() {
+					defer func() { pan = recover() }()
+					if kind == "os.File" {
+						f, oerr := os.Open(path)
+						if oerr != nil {
+							rerr = oerr
+							return
+						}
+						defer f.Close()
+						rd, rerr = bs.ReadDataBlockRowData(f, &blk)
+					} else {
+						rd, rerr = bs.ReadDataBlockRowData(bytes.NewReader(mut), &blk)
+					}
+				}()
+				rc.Res.Count("hashless_helper_calls", 1)
+				if pan != nil {
+					rc.Violate(i, "panic", "", fmt.Sprintf("ReadDataBlockRowData (%s) panicked on a truncated file: %v", kind, pan), wit(nil))
+					return false
+				}
+				if end > cut && blk.RowDataSize > 0 {
+					if rerr == nil {
+						rc.Violate(i, "read-beyond-end-accepted", "", fmt.Sprintf("ReadDataBlockRowData (%s handle) returned %d bytes and no error for block %d whose row data [%d,%d) runs past the end of the %d-byte file", kind, len(rd), bi, blk.RowDataOffset, end, cut), wit(nil))
+						return false
+					}
+					continue
+				}
+				if rerr != nil {
+					continue
+				}
+				sc := bs.NewBlockRowScanner(rd)
+				for {
+					row, ok, serr := sc.Next()
+					if serr != nil || !ok {
+						break
+					}
+					if want, known := base.rows[world.VidOfJSON(row)]; !known || want != string(row) {
+						rc.Violate(i, "wrong-row-from-helper", "", "a block that lies wholly inside the truncated file yielded a row that was not written: "+core.Trunc(string(row), 200), wit(nil))
+						return false
+					}
+				}
+			}
+		}
+		for k, q := range queries {
+			res := run(q)
+			rc.Res.Count("queries_hashless", 1)
+			if res.QErr != nil {
+				continue
+			}
+			for _, row := range res.Rows {
+				if !rowWritten(row) {
+					rc.Violate(i, "wrong-row-from-query", "", "a query over a truncated file (hash-less metadata held by the MetaStore) returned a row that was never written to it: "+core.Trunc(fmt.Sprintf("%v", row), 300), wit(queryJSON(q)))
+					return false
+				}
+			}
+			if res.Err == nil && !sameCounts(res.VIDs, baseline[k]) {
+				rc.Violate(i, "silent-wrong-answer", "", fmt.Sprintf("with hash-less metadata held by the MetaStore, a query over the file cut at %d returned %d rows without an error; the uncorrupted answer has %d", cut, len(res.Rows), len(baseline[k])), wit(queryJSON(q)))
+				return false
+			}
+		}
+	}
+	return true
 }
